@@ -161,6 +161,8 @@ class SimFS:
         del sp.children[sn]
         dp.children[dn] = node
         self.mark_hot(self.current_pid())
+        if target is not None and node.kind == "dir":
+            self._log("rename-over-empty-dir", dst)     # (POSIX allows it)
         self._log("rename", src, dst)
 
     def rmtree(self, path):
